@@ -2,5 +2,5 @@ CONSTANTS
   MaxLen = 7
   Mode = "gram"
 SPECIFICATION Spec
-INVARIANTS ParserSound PrecOk Emit
+INVARIANTS ParserSound PrecOk TextAgrees Emit
 CHECK_DEADLOCK FALSE
